@@ -17,8 +17,8 @@ import (
 
 func init() {
 	register(&Check{ID: "C16", Run: runC16, Expl: oblig.Explanation{
-		Text: "Static check of the structural preconditions of history independence, sharing and framing of the compression codecs. (R1) every field of the pooled xerialReader/xerialWriter is assigned an empty value unconditionally in Reset (parameter, zero constant, zero composite, zero-length reslice of itself), or is a per-acquisition setting assigned on every path of the acquiring constructor after the pool Get (framed, encode), or a setting fixed at construction and never written again (decode), or scratch that is written in full before each read (xerialWriter.header): so nothing a previous stream left behind, including a stream that ended in an error, can reach the next one. (R2) at each of the 8 sync.Pool Get sites the non-nil path calls Reset(<the new stream>) on the pooled object before any return. (R3) each of the 8 Close methods that return an object to a pool: has a pointer receiver, tests the wrapper's field for nil, clears that field through the receiver in the same guarded region as the single Put, resets the object to a null stream before Put and puts exactly the object it took from the field — a second Close cannot Put the object twice, so two later users never share one decoder. (R4) compress.Codecs[i].Code() == i for every installed codec and the codes are Kafka's (gzip 1, snappy 2, lz4 3, zstd 4); names are distinct. (R5) no method of a Codec type stores to a Codec field (the pools are internally synchronised): a codec value is shareable. (R6) xerial framing: the writer flushes mid-stream only under fullEnough(), which requires framed, so an unframed stream is one snappy block; the stream header is written only while nothing has been written (nbytes == 0) and is the 16-byte magic+version; every block is preceded by a big-endian uint32 length taken from len(block); the reader reads the 16-byte header only at stream start (nbytes == 0), recognises it by the same 8 magic bytes, and reads a big-endian uint32 length followed by exactly that many bytes; header scratch is fully written before it is sent. Not decided: losslessness, acceptance by and of reference encoders/decoders (third-party code and value-level reasoning), behaviour for every chunking of reads and writes, data races inside third-party codecs.",
-		Rule: "one obligation per field, pool site, Close method, table entry and framing fact",
+		Text:    "Static check of the structural preconditions of history independence, sharing and framing of the compression codecs. (R1) every field of the pooled xerialReader/xerialWriter is assigned an empty value unconditionally in Reset (parameter, zero constant, zero composite, zero-length reslice of itself), or is a per-acquisition setting assigned on every path of the acquiring constructor after the pool Get (framed, encode), or a setting fixed at construction and never written again (decode), or scratch that is written in full before each read (xerialWriter.header): so nothing a previous stream left behind, including a stream that ended in an error, can reach the next one. (R2) at each of the 8 sync.Pool Get sites the non-nil path calls Reset(<the new stream>) on the pooled object before any return. (R3) each of the 8 Close methods that return an object to a pool: has a pointer receiver, tests the wrapper's field for nil, clears that field through the receiver in the same guarded region as the single Put, resets the object to a null stream before Put and puts exactly the object it took from the field — a second Close cannot Put the object twice, so two later users never share one decoder. (R4) compress.Codecs[i].Code() == i for every installed codec and the codes are Kafka's (gzip 1, snappy 2, lz4 3, zstd 4); names are distinct. (R5) no method of a Codec type stores to a Codec field (the pools are internally synchronised): a codec value is shareable. (R6) xerial framing: the writer flushes mid-stream only under fullEnough(), which requires framed, so an unframed stream is one snappy block; the stream header is written only while nothing has been written (nbytes == 0) and is the 16-byte magic+version; every block is preceded by a big-endian uint32 length taken from len(block); the reader reads the 16-byte header only at stream start (nbytes == 0), recognises it by the same 8 magic bytes, and reads a big-endian uint32 length followed by exactly that many bytes; header scratch is fully written before it is sent. Not decided: losslessness, acceptance by and of reference encoders/decoders (third-party code and value-level reasoning), behaviour for every chunking of reads and writes, data races inside third-party codecs.",
+		Rule:    "one obligation per field, pool site, Close method, table entry and framing fact",
 		Trusted: []string{"go/ssa", "value provenance (internal/an/flow.go)", "CFG must-pass search (internal/an/cfg.go)", "sync.Pool is safe for concurrent use; the third-party Reset methods fully reinitialise their objects"},
 	}})
 }
@@ -47,7 +47,7 @@ func pkgFuncs(p *load.Program, rel string) []*ssa.Function {
 
 func isPoolCall(c *ssa.CallCommon, name string) bool {
 	f := c.StaticCallee()
-	return f != nil && f.Name() == name && f.Signature.Recv() != nil && an.NamedIs(f.Signature.Recv().Type(), "sync", "Pool")
+	return f != nil && an.RefFuncName(f) == name && f.Signature.Recv() != nil && an.NamedIs(f.Signature.Recv().Type(), "sync", "Pool")
 }
 
 // ---- R1
@@ -215,14 +215,14 @@ func c16HeaderScratch(p *load.Program) bool {
 			}
 		})
 	}
-	for _, b := range fl.Blocks {
+	for _, b := range an.Blocks(fl) {
 		filled := map[string]bool{}
 		for _, ins := range b.Instrs {
 			c, isC := ins.(*ssa.Call)
 			if !isC || c.Call.StaticCallee() == nil || len(c.Call.Args) == 0 {
 				continue
 			}
-			name := c.Call.StaticCallee().Name()
+			name := an.RefFuncName(c.Call.StaticCallee())
 			switch name {
 			case "writeXerialHeader", "writeXerialFrame":
 				s := clean(an.Shape(c.Call.Args[0]))
@@ -273,14 +273,14 @@ func c16Acquire(p *load.Program, r *oblig.Report) {
 						return false
 					}
 					f := c.Call.StaticCallee()
-					if f == nil || f.Name() != "Reset" || f.Signature.Recv() == nil || len(c.Call.Args) != 2 {
+					if f == nil || an.RefFuncName(f) != "Reset" || f.Signature.Recv() == nil || len(c.Call.Args) != 2 {
 						return false
 					}
 					if !fromGet(c.Call.Args[0]) {
 						return false
 					}
 					for _, o := range an.Origins(c.Call.Args[1], an.FlowOpts{}) {
-						if o.Kind != "param" || o.Name != stream.Name() || o.Path != "" {
+						if o.Kind != "param" || o.Name != an.ParamName(stream) || o.Path != "" {
 							return false
 						}
 					}
@@ -305,10 +305,10 @@ func c16Acquire(p *load.Program, r *oblig.Report) {
 				ok, exit := an.MustPass(fn, an.PointOf(get), isReset, edge)
 				found := "every non-nil path resets"
 				if !ok && exit != nil {
-					found = "the return at " + p.Pos(exit.Pos()) + " is reachable with a pooled object that was not Reset(" + stream.Name() + ")"
+					found = "the return at " + p.Pos(exit.Pos()) + " is reachable with a pooled object that was not Reset(" + an.ParamName(stream) + ")"
 				}
 				// the nil test exists (otherwise NilEdge prunes nothing and a nil object would be Reset: a crash, but not our concern)
-				r.Check(ok, rule, construct, p.Pos(get.Pos()), "obj.Reset("+stream.Name()+") on every path on which obj != nil", found)
+				r.Check(ok, rule, construct, p.Pos(get.Pos()), "obj.Reset("+an.ParamName(stream)+") on every path on which obj != nil", found)
 			}
 		}
 	}
@@ -326,7 +326,7 @@ func c16ReleaseAs(p *load.Program, r *oblig.Report, rule string) {
 	for _, rel := range c16Pkgs {
 		for _, fn := range pkgFuncs(p, rel) {
 			puts := callsTo(fn, func(c *ssa.CallCommon) bool { return isPoolCall(c, "Put") })
-			if len(puts) == 0 || fn.Name() != "Close" {
+			if len(puts) == 0 || an.RefFuncName(fn) != "Close" {
 				continue
 			}
 			n++
@@ -342,7 +342,7 @@ func c16ReleaseAs(p *load.Program, r *oblig.Report, rule string) {
 			var field string
 			okObj := true
 			for _, o := range an.Origins(put.Call.Args[1], an.FlowOpts{}) {
-				if o.Kind == "param" && o.Name == recv.Name() && strings.Count(o.Path, ".") == 1 && !strings.Contains(o.Path, "[") {
+				if o.Kind == "param" && o.Name == an.ParamName(recv) && strings.Count(o.Path, ".") == 1 && !strings.Contains(o.Path, "[") {
 					if field != "" && field != o.Path {
 						okObj = false
 					}
@@ -397,7 +397,7 @@ func c16ReleaseAs(p *load.Program, r *oblig.Report, rule string) {
 			resetOK := false
 			an.EachInstr(fn, func(ins ssa.Instruction) {
 				c, ok := ins.(*ssa.Call)
-				if !ok || c.Call.StaticCallee() == nil || c.Call.StaticCallee().Name() != "Reset" || len(c.Call.Args) != 2 {
+				if !ok || c.Call.StaticCallee() == nil || an.RefFuncName(c.Call.StaticCallee()) != "Reset" || len(c.Call.Args) != 2 {
 					return
 				}
 				if !an.Dominates(c, put) {
@@ -405,7 +405,7 @@ func c16ReleaseAs(p *load.Program, r *oblig.Report, rule string) {
 				}
 				sameObj := true
 				for _, o := range an.Origins(c.Call.Args[0], an.FlowOpts{}) {
-					if !(o.Kind == "param" && o.Name == recv.Name() && o.Path == field) {
+					if !(o.Kind == "param" && o.Name == an.ParamName(recv) && o.Path == field) {
 						sameObj = false
 					}
 				}
@@ -574,7 +574,7 @@ func c16Shareable(p *load.Program, r *oblig.Report) {
 func globalWrittenOutsideInit(p *load.Program, rel string, g *ssa.Global) bool {
 	written := false
 	for _, fn := range pkgFuncs(p, rel) {
-		if fn.Name() == "init" {
+		if an.RefFuncName(fn) == "init" {
 			continue
 		}
 		an.EachInstr(fn, func(ins ssa.Instruction) {
@@ -718,7 +718,7 @@ func c16Framing(p *load.Program, r *oblig.Report) {
 	okLast := false
 	an.EachInstr(flush, func(ins ssa.Instruction) {
 		c, ok := ins.(*ssa.Call)
-		if ok && c.Call.StaticCallee() != nil && c.Call.StaticCallee().Name() == "write" {
+		if ok && c.Call.StaticCallee() != nil && an.RefFuncName(c.Call.StaticCallee()) == "write" {
 			s := clean(an.Shape(c.Call.Args[1]))
 			if "len("+s+")" == frameArg {
 				okLast = true
@@ -749,7 +749,7 @@ func c16Framing(p *load.Program, r *oblig.Report) {
 		}
 	}
 	lenOK := false
-	for _, b := range isHdr.Blocks {
+	for _, b := range an.Blocks(isHdr) {
 		_, ci := an.IfCond(b)
 		if ci != nil && ci.Op == token.GEQ && clean(an.Shape(ci.X)) == "len(src)" {
 			if k, isK := an.ConstInt(ci.Y); isK && k == 16 {
@@ -763,7 +763,7 @@ func c16Framing(p *load.Program, r *oblig.Report) {
 	nFull := 0
 	an.EachInstr(readChunk, func(ins ssa.Instruction) {
 		c, ok := ins.(*ssa.Call)
-		if !ok || c.Call.StaticCallee() == nil || c.Call.StaticCallee().Name() != "readFull" {
+		if !ok || c.Call.StaticCallee() == nil || an.RefFuncName(c.Call.StaticCallee()) != "readFull" {
 			return
 		}
 		nFull++
